@@ -101,7 +101,7 @@ def judge(spec, res, ref):
             viol("incomplete_without_timeout", "workers were killed although timeout is -1")
     else:
         if flag:
-            if facts["branch"] == "parallel" and killed == 0:
+            if facts["branch"] == "parallel" and killed == 0 and (complete or not tractable):
                 viol("false_warning", "time-out warning although no worker was cut short "
                      "(all %d workers had finished; result %s)" % (facts["started"], "complete" if complete else "?"))
             elif facts["branch"] == "sequential" and elapsed <= timeout:
